@@ -123,7 +123,17 @@ class _Handle:
 
     @property
     def holder(self):
+        if self.site == "spanned":          # the cell hidden behind a merge (1 x 2 table, cells merged): still a cell with a text body of its own
+            return self.shape.table.cell(0, 1)
         return self.shape.table.cell(0, 0) if self.site == "cell" else self.shape
+
+    @property
+    def body_root(self):
+        """The element whose (first) text body is this container's: the a:tc for cell sites, the shape element otherwise."""
+        if self.site in ("cell", "spanned"):
+            tcs = [el for el in self.shape._element.iter("{%s}tc" % A)]
+            return tcs[1 if self.site == "spanned" else 0]
+        return self.shape._element
 
     @property
     def tf(self):
@@ -138,14 +148,14 @@ class _Handle:
             return self._observe()
         except Exception:       # noqa: BLE001  a reader that raises reads nothing: the tree is still projected, the readers are "unknown"
             try:
-                body = project_body(self.shape._element)
+                body = project_body(self.body_root)
             except Exception:   # noqa: BLE001
                 body = []
             return {"body": body, "rd": {"frame": [UNKNOWN], "paras": [[UNKNOWN] for _ in body], "runs": [[] for _ in body]}}
 
     def _observe(self) -> dict:
         paras = self.tf.paragraphs
-        return {"body": project_body(self.shape._element),
+        return {"body": project_body(self.body_root),
                 "rd": {"frame": classify(self.read_frame()),
                        "paras": [classify(p.text) for p in paras],
                        "runs": [[classify(r.text) for r in p.runs] for p in paras]}}
@@ -172,7 +182,7 @@ class _Handle:
             p.alignment, p.level = {1: (PP_ALIGN.CENTER, 0), 2: (PP_ALIGN.RIGHT, 1), 3: (None, 2)}[a["v"]]
         elif op == "AddField":
             # no public API makes a field: written as PowerPoint does, before a (new) a:endParaRPr
-            txb = next(self.shape._element.iter(*_TXB))
+            txb = next(self.body_root.iter(*_TXB))
             p = [x for x in txb if x.tag == _P][a["i"] - 1]
             end = p.find(_END)
             if end is None:
@@ -196,6 +206,10 @@ def _new_container(slide, site, k):
         return slide.shapes.add_shape(MSO_SHAPE.RECTANGLE, 10 * k, 0, 914400, 400000)
     if site == "cell":
         return slide.shapes.add_table(1, 1, 10 * k, 0, 914400, 400000)
+    if site == "spanned":
+        gf = slide.shapes.add_table(1, 2, 10 * k, 0, 914400, 400000)
+        gf.table.cell(0, 0).merge(gf.table.cell(0, 1))
+        return gf
     if site == "nobody":
         # a p:sp WITHOUT p:txBody (what python-pptx itself makes for a picture placeholder; lxml edit of a new text box): the first
         # touch of .text_frame gives it a body with one empty paragraph - and that body must be the shape's, not a detached one
